@@ -1,8 +1,11 @@
 package main
 
 import (
+	"fmt"
+	"go/ast"
 	"go/token"
 	"math/big"
+	"strings"
 )
 
 func init() {
@@ -32,4 +35,118 @@ func init() {
 		NFact("colfer_size_max", func() *big.Int { return loadPkg("raftpb").Const("ColferSizeMax") }),
 		NFact("entry_non_cmd_fields_size", func() *big.Int { return loadPkg("internal/settings").Const("EntryNonCmdFieldsSize") }),
 	}})
+}
+
+// ---- transport frame (internal/transport/tcp.go) ----
+
+// byteArrayVar evaluates the elements of `name = [N]byte{...}`.
+func byteArrayVar(p *Pkg, name string) []*big.Int {
+	e, _, ok := p.valueSpec(name)
+	if !ok {
+		panic("variable " + name + " not found")
+	}
+	cl, ok := e.(*ast.CompositeLit)
+	if !ok {
+		panic(name + " is not a composite literal")
+	}
+	var out []*big.Int
+	for _, el := range cl.Elts {
+		out = append(out, p.Eval(el, 0))
+	}
+	return out
+}
+
+// hdrOffsets finds, inside requestHeader.<fn>, the calls
+// binary.BigEndian.{PutUintN(buf[K:], X) | UintN(buf[K:])} and returns K per
+// role: "method" (no offset = 0), "size", "crc", "hcrc".
+func hdrOffsets(fn string) map[string]*big.Int {
+	p := loadPkg("internal/transport")
+	fd := p.Func("requestHeader", fn)
+	res := map[string]*big.Int{}
+	set := func(role string, v *big.Int) {
+		if old, ok := res[role]; ok && old.Cmp(v) != 0 {
+			panic(fmt.Sprintf("requestHeader.%s: field %s at two offsets (%s, %s)", fn, role, old, v))
+		}
+		res[role] = v
+	}
+	off := func(e ast.Expr) *big.Int {
+		if se, ok := e.(*ast.SliceExpr); ok {
+			if se.Low == nil {
+				return big.NewInt(0)
+			}
+			return p.Eval(se.Low, 0)
+		}
+		return big.NewInt(0)
+	}
+	roleOf := func(e ast.Expr) string {
+		switch x := e.(type) {
+		case *ast.SelectorExpr:
+			return x.Sel.Name // h.size, h.crc, h.method
+		case *ast.BasicLit, *ast.Ident:
+			return "hcrc" // the literal 0 / the computed checksum v / incoming
+		}
+		return "?"
+	}
+	ast.Inspect(fd.Body, func(n ast.Node) bool {
+		switch x := n.(type) {
+		case *ast.CallExpr:
+			sel, ok := x.Fun.(*ast.SelectorExpr)
+			if !ok {
+				return true
+			}
+			name := sel.Sel.Name
+			if strings.HasPrefix(name, "PutUint") && len(x.Args) == 2 {
+				set(roleOf(x.Args[1]), off(x.Args[0]))
+			}
+		case *ast.AssignStmt:
+			// h.size = binary.BigEndian.Uint64(buf[2:]) ; incoming := ...Uint32(buf[10:]) ; method := ...Uint16(buf)
+			if len(x.Lhs) == 1 && len(x.Rhs) == 1 {
+				if c, ok := x.Rhs[0].(*ast.CallExpr); ok {
+					if sel, ok := c.Fun.(*ast.SelectorExpr); ok && strings.HasPrefix(sel.Sel.Name, "Uint") && len(c.Args) == 1 {
+						role := "?"
+						switch l := x.Lhs[0].(type) {
+						case *ast.SelectorExpr:
+							role = l.Sel.Name
+						case *ast.Ident:
+							role = map[string]string{"incoming": "hcrc", "method": "method"}[l.Name]
+						}
+						set(role, off(c.Args[0]))
+					}
+				}
+			}
+		}
+		return true
+	})
+	return res
+}
+
+func hdrOffset(role string) *big.Int {
+	e, d := hdrOffsets("encode"), hdrOffsets("decode")
+	a, ok1 := e[role]
+	b, ok2 := d[role]
+	if !ok1 || !ok2 {
+		panic("header field " + role + " not found in encode/decode")
+	}
+	if a.Cmp(b) != 0 {
+		panic(fmt.Sprintf("header field %s: encode writes at %s, decode reads at %s", role, a, b))
+	}
+	return a
+}
+
+func init() {
+	u := units[len(units)-1]
+	tp := func() *Pkg { return loadPkg("internal/transport") }
+	u.Facts = append(u.Facts,
+		NFact("request_header_size", func() *big.Int { return tp().Const("requestHeaderSize") }),
+		NFact("raft_type", func() *big.Int { return tp().Const("raftType") }),
+		NFact("snapshot_type", func() *big.Int { return tp().Const("snapshotType") }),
+		NFact("magic0", func() *big.Int { return byteArrayVar(tp(), "magicNumber")[0] }),
+		NFact("magic1", func() *big.Int { return byteArrayVar(tp(), "magicNumber")[1] }),
+		NFact("poison0", func() *big.Int { return byteArrayVar(tp(), "poisonNumber")[0] }),
+		NFact("poison1", func() *big.Int { return byteArrayVar(tp(), "poisonNumber")[1] }),
+		NFact("hdr_off_method", func() *big.Int { return hdrOffset("method") }),
+		NFact("hdr_off_size", func() *big.Int { return hdrOffset("size") }),
+		NFact("hdr_off_hcrc", func() *big.Int { return hdrOffset("hcrc") }),
+		NFact("hdr_off_crc", func() *big.Int { return hdrOffset("crc") }),
+	)
 }
